@@ -88,6 +88,19 @@ def replay(ctx, binary, jobs, workers):
         total, len([s for s in shards if s]), tot.get("replays_ok", 0), tot.get("txs", 0), tot.get("queries", 0), tot.get("errclass_drift", 0)))
 
 
+def require_acts(behs, acts, what):
+    """Vacuity guard: every action of the spec occurs in the behaviours that are replayed."""
+    seen = set()
+    for b in behs:
+        for s in b:
+            seen.add(s["act"])
+            if "via" in s:
+                seen.add("via:" + s["via"])
+    missing = sorted(set(acts) - seen)
+    if missing:
+        raise vlib.Inconclusive("VACUOUS", "%s: no behaviour takes %s" % (what, missing))
+
+
 def run(ctx):
     binary = vlib.go_build("packages", ctx)
     case = ctx.replay_case()
@@ -122,6 +135,7 @@ def run(ctx):
             jobs.append((label, behs))
             n = len(behs)
         ctx.log("TLC %s: %d distinct states, %d transitions, %d behaviours emitted, %d replayed, %.1fs" % (label, r.distinct, r.generated, len(r.traces), n, r.wall))
+    require_acts([b for _, bs in jobs for b in bs], ["AddPkg", "Call"], "C12")
     replay(ctx, binary, jobs, 3 if quick else 8)
     ctx.cov["exhaustive"] = True
     ctx.assumptions += [
